@@ -344,3 +344,124 @@ class ToValue(_Route):
 class ToValueQuantity(ToValue):
     tag = "quantity"
     xcls = "unyt_quantity"
+
+
+class GetBaseEquivalentAtCallSite(Contract):
+    """Unit.get_base_equivalent as seen by its callers (its own proof: contracts/registry.py
+    GetBaseEquivalent): some unit bound to the registry of the unit being converted -- which unit is the unit
+    system's business (bounded driver c10) -- or a refusal"""
+    name = "unyt.unit_object.Unit.get_base_equivalent"
+    properties = ()
+    may_raise = ("UnitsNotReducible", "UnitParseError")
+
+    def formals(self, it):
+        return {"self": make_unit(it, "self"), "unit_system": None}
+
+    def result(self, it, a):
+        r = make_unit(it, "base_equivalent", registry=a.self.fields["registry"])
+        it.assume(z3.Length(S.ustr(r)) >= 1)           # ASSUMED['sympy-str-nonempty']
+        self._r = r
+        return r
+
+    def ensures(self, it, a, r, old):
+        P = it.domain.prefix_table(it)
+        return [("bound to the registry of the unit being converted", r.fields["registry"] is a.self.fields["registry"]),
+                ("consistent with its table", S.unit_wf(r, P))]
+
+
+class InBase(_Route):
+    """x.in_base(system) (and in_cgs / in_mks, which forward to it): whatever unit get_base_equivalent names,
+    the result is the same physical quantity expressed in it, zero points included (C03: all routes agree;
+    C10: preserves the quantity, agrees with get_base_equivalent), in fresh memory with the float dtype of the
+    data's item size (C17), the input untouched (C18)"""
+    name = "unyt.array.unyt_array.in_base"
+    tag = "non-EM"
+    properties = ("C03", "C10", "C17", "C18")
+    callsite_disabled = True
+    may_raise = ("UnitsNotReducible", "UnitParseError", "UnitConversionError")
+
+    def formals(self, it):
+        return {"self": self.make_self(it), "unit_system": Opaque("unit_system_designation")}
+
+    def call_args(self, formals):
+        return [formals["self"], formals["unit_system"]]
+
+    def track(self, it, a):
+        N.track_array(it, "self", a.self)
+        track_unit(it, "old", a.self.fields["units"])
+        it.ctx.track("old.prefix", S.prefix_of(a.self.fields["units"]))
+
+    def requires(self, it, a):
+        P = it.domain.prefix_table(it)
+        old = a.self.fields["units"]
+        return [("unit consistent with its table", S.unit_wf(old, P)),
+                ("unit string non-empty", z3.Length(S.ustr(old)) >= 1)]
+
+    def raises(self, it, a):
+        return {}
+
+    def ensures(self, it, a, r, old):
+        P = it.domain.prefix_table(it)
+        if not N.is_unyt_array(r):
+            return [("the result is a unyt object", False)]
+        ru = r.fields["units"]
+        rk, rn = target_dtype(old["kind"], old["itemsize"])
+        it.ctx.instantiate(old["elem"], z3.RealVal(0), z3.RealVal(1))
+        out = [
+            ("C03/C10: same physical quantity: SI(result, base unit) == SI(input, old unit)",
+             S.SI(N.arr_elem(r), ru, P) == S.SI(old["elem"], old["units"], P)),
+            ("C10: the result's unit belongs to the input's registry",
+             ru.fields["registry"] is old["units"].fields["registry"]),
+            ("C18: result owns fresh memory", N.arr_buf(r) is not old["buf"]),
+            ("C17: result dtype: float of the same item size (>= 16 bit), complex stays complex",
+             z3.And(to_z3(N.arr_kind(r)) == rk, to_z3(N.arr_itemsize(r)) == rn)),
+            ("result keeps the class", r.cls.name == a.self.cls.name),
+        ]
+        return out + self.unchanged(a, old)
+
+    def canary(self, it, a, r, old):
+        return to_real(N.arr_elem(r)) == to_real(old["elem"])
+
+
+class InBaseQuantity(InBase):
+    tag = "non-EM,quantity"
+
+    def make_self(self, it):
+        q = N.make_unyt_array(it, "self", cls="unyt_quantity")
+        it.assume(to_z3(N.arr_scalar(q)))
+        return q
+
+
+class ConvertToBase(InBase):
+    """x.convert_to_base(system) (and convert_to_cgs / convert_to_mks): the in-place twin of in_base -- the same
+    numbers, unit and dtype as the copying route, in the caller's memory; a refused call leaves numbers and
+    unit as they were (C03 route agreement, C10, C18)"""
+    name = "unyt.array.unyt_array.convert_to_base"
+    tag = "non-EM"
+    may_raise = ("UnitsNotReducible", "UnitParseError", "UnitConversionError", "ValueError", "TypeError")
+
+    def formals(self, it):
+        return {"self": self.make_self(it), "unit_system": Opaque("unit_system_designation"), "equivalence": None}
+
+    def ensures(self, it, a, r, old):
+        P = it.domain.prefix_table(it)
+        b = N.arr_buf(a.self)
+        ru = a.self.fields["units"]
+        rk, rn = target_dtype(old["kind"], old["itemsize"])
+        it.ctx.instantiate(old["elem"], z3.RealVal(0), z3.RealVal(1))
+        return [("C03/C10: same physical quantity after the in-place conversion",
+                 S.SI(b.elem, ru, P) == S.SI(old["elem"], old["units"], P)),
+                ("C10: the new unit belongs to the array's registry",
+                 ru.fields["registry"] is old["units"].fields["registry"]),
+                ("C18: same memory buffer (in place)", b is old["buf"]),
+                ("C17: dtype as for the copying route", z3.And(to_z3(b.kind) == rk, to_z3(b.itemsize) == rn)),
+                ("returns None", r is None)]
+
+    def on_raise(self, it, a, old, exc):
+        b = N.arr_buf(a.self)
+        return [("C18: target numbers unchanged on failure",
+                 True if b.elem is old["elem"] else to_real(b.elem) == to_real(old["elem"])),
+                ("C18: target unit unchanged on failure", a.self.fields["units"] is old["units"])]
+
+    def canary(self, it, a, r, old):
+        return to_real(N.arr_buf(a.self).elem) == to_real(old["elem"])
